@@ -1,37 +1,37 @@
 SPECIFICATION Spec
 CONSTANTS
-  NVB = 1
+  NVB = 2
   InitLog <- EmptyLog
-  MaxSeq = 3
+  MaxSeq = 1
   Keys = {"user"}
-  Kinds = {"mut", "sys", "adv"}
+  Kinds = {"mut"}
   OldEvents = FALSE
   BadEvents = FALSE
   FoUuid <- Fo10
   Savers = {"p"}
-  MaxSaves = 0
+  MaxSaves = 1
   MaxCrash = 0
   MaxAcks = 1
-  MaxGen = 2
-  MaxNotify = 0
-  MaxEnds = 0
+  MaxGen = 4
+  MaxNotify = 1
+  MaxEnds = 2
   MaxFail = 0
   AutoReset = "earliest"
   Finite = FALSE
-  AutoCkpt = FALSE
-  Infos <- NoInfos
+  AutoCkpt = TRUE
+  Infos <- Infos2
   Info0 <- Info11
-  EndCauses = {}
+  EndCauses = {"socket", "statechanged", "ok"}
   Hold = FALSE
   AllowClose = TRUE
   Rollbacks = FALSE
   FailSaves = FALSE
-  Focus = TRUE
+  Focus = FALSE
   Record = FALSE
   ReadOnly = FALSE
-  RM = TRUE
-  Slots = 2
-  RmUuids = {1}
+  RM = FALSE
+  Slots = 1
+  RmUuids = {1, 2}
   Scrapes = FALSE
   HookScrapes = FALSE
   Marking = FALSE
